@@ -28,6 +28,19 @@ class ModuleInfo:
         node = None
         for k, p in enumerate(parts):
             node = None
+            if "@" in p and k == len(parts) - 1:
+                # `<field>@<keyword>`: the lambda given as that keyword of a field declaration `field: T = call(..., keyword=lambda a: e)`,
+                # read as `def f(a): return e` (mechanical: the lambda's own argument list and expression nodes, nothing else)
+                field, kw = p.split("@")
+                for n in body:
+                    if isinstance(n, ast.AnnAssign) and isinstance(n.target, ast.Name) and n.target.id == field and isinstance(n.value, ast.Call):
+                        for kwd in n.value.keywords:
+                            if kwd.arg == kw and isinstance(kwd.value, ast.Lambda):
+                                lam = kwd.value
+                                ret = ast.copy_location(ast.Return(value=lam.body), lam.body)
+                                fn = ast.FunctionDef(name=f"{field}__{kw}", args=lam.args, body=[ret], decorator_list=[], returns=None, type_comment=None, type_params=[])
+                                node = ast.copy_location(fn, lam)
+                return (node, cls) if node is not None else (None, None)
             for n in body:
                 if isinstance(n, (ast.FunctionDef, ast.ClassDef)) and n.name == p:
                     node = n
